@@ -350,6 +350,28 @@ fn check_comm(
 ) -> Result<(), String> {
     let ab = a.merge(b);
     let ba = b.merge(a);
+    // KF-C07-02 delimited by its exact rule: for operands of different CRDT kinds the listed
+    // behaviour is "the operand with the newer outer stamp is kept whole, ties keep self". The
+    // non-associativity that follows from this rule is tolerated below; any OTHER resolution of a
+    // kind mismatch (one that looks inside the operands, prefers a kind, or merges halves) is not
+    // the listed finding and is reported here, pair by pair, whatever the laws then say.
+    if kind_of(&a.crdt) != kind_of(&b.crdt) {
+        for (x, y, xy, name) in [(a, b, &ab, "merge(a,b)"), (b, a, &ba, "merge(b,a)")] {
+            let keep = if y.timestamp > x.timestamp { y } else { x };
+            let want = peer_view(keep)["crdt"].clone();
+            let got = peer_view(xy)["crdt"].clone();
+            if want != got {
+                return Err(format!(
+                    "kind mismatch resolved differently from the listed rule (newer outer stamp kept whole, ties keep self):\n  {}.crdt = {}\n  the rule keeps {}\n  a = {}\n  b = {}\n  (outer stamps a={} b={}, kinds a={} b={})",
+                    name, got, want,
+                    show_val(a), show_val(b),
+                    ts_json(&a.timestamp), ts_json(&b.timestamp),
+                    a.crdt.type_name(), b.crdt.type_name()
+                ));
+            }
+        }
+        ctx.label("mixed_kinds_pair_follows_listed_rule");
+    }
     if peer_view(&ab) == peer_view(&ba) {
         return Ok(());
     }
